@@ -10,7 +10,7 @@ import z3
 import refmodel as R
 from symx import core
 from symx.core import lift, conc
-from symx.harness import sym_run
+from symx.harness import sym_run, new_result
 from . import common as C
 from .c01 import same_point_z3
 from .c03 import install_range_summary
@@ -18,6 +18,9 @@ from .c03 import install_range_summary
 PROPERTY = "C20"
 L = lift
 M = core.MOps
+
+
+TERMINATION_LIMIT_S = 30
 
 
 def trunc(data, props, tz):
@@ -69,7 +72,7 @@ def job_time(ctx, mode, props, tz, rep="ord", order="p+t", ranges=None, tzh=(-3,
         h, mi, s = L(M.div(loc, 3600)), L(M.div(M.mod(loc, 3600), 60)), L(M.mod(loc, 60))
         match = []
         if H is not None:
-            match.append(h == H)
+            match.append(h == (0 if H == 24 else H))       # T24 is the end of the day: 00:00 of the next one
         if eMI is not None:
             match.append(mi == eMI)
         if eS is not None:
@@ -215,7 +218,77 @@ def expected_day(mode, props, r, rr, d0, lookahead):
 
 
 # ---------------------------------------------------------------------------
+IMPOSSIBLE = [("360day", {"week_of_year": 53, "day_of_week": 1}), ("360day", {"week_of_year": 53, "day_of_week": 7}),
+              ("gregorian", {"hour_of_day": 24}), ("365day", {"hour_of_day": 24, "minute_of_hour": 0}),
+              ("360day", {"week_of_year": 52, "day_of_week": 1}), ("365day", {"week_of_year": 53, "day_of_week": 7})]
+IMPOSSIBLE_DRIVER = r"""
+import json, signal, sys
+from metomi.isodatetime.data import TimePoint, CALENDAR
+mode, kw, limit = sys.argv[1], json.loads(sys.argv[2]), int(sys.argv[3])
+CALENDAR.set_mode(mode)
+p = TimePoint(year=2020, month_of_year=3, day_of_month=10, hour_of_day=6, minute_of_hour=0, second_of_minute=0,
+              time_zone_hour=0, time_zone_minute=0)
+class Hang(BaseException): pass
+def alarm(*a): raise Hang()
+signal.signal(signal.SIGALRM, alarm)
+try:
+    t = TimePoint(truncated=True, **kw)
+except ValueError as exc:
+    print(json.dumps({"outcome": "refused by the constructor"})); sys.exit(0)
+signal.alarm(limit)
+try:
+    r = p + t
+    out = {"outcome": "returned", "value": str(r)}
+except Hang:
+    out = {"outcome": "hang"}
+except ValueError as exc:
+    out = {"outcome": "refused", "error": type(exc).__name__}
+except Exception as exc:
+    out = {"outcome": "crashed", "error": type(exc).__name__ + ": " + str(exc)}
+finally:
+    signal.alarm(0)
+print(json.dumps(out))
+"""
+
+
+def _impossible(mode, kw):
+    import json, os, subprocess, sys
+    repo = os.environ.get("VERIF_REPO", "/repo")
+    p = subprocess.run([sys.executable, "-c", IMPOSSIBLE_DRIVER, mode, json.dumps(kw), str(TERMINATION_LIMIT_S)], capture_output=True,
+                       text=True, env=dict(os.environ, PYTHONPATH=repo), cwd=repo, timeout=TERMINATION_LIMIT_S + 60)
+    try:
+        return json.loads(p.stdout.strip().splitlines()[-1])
+    except Exception:
+        return {"outcome": "crashed", "error": (p.stderr or "")[-300:]}
+
+
+def job_termination(ctx):
+    """concrete supplement ("the operation terminates"): truncated points the constructor accepts although no (or
+    hardly any) date of the active calendar carries the designator, and the 24:00 form, added to a full point in a
+    fresh process under a time limit.  Not a solver verdict."""
+    res = new_result("termination[concrete]")
+    for mode, kw in IMPOSSIBLE:
+        res["obligations"] += 1
+        res["paths"] += 1
+        o = _impossible(mode, kw)
+        if o["outcome"] in ("returned", "refused", "refused by the constructor"):
+            res["discharged"] += 1
+            res["trivially"] += 1
+        else:
+            res["candidates"].append({"label": "the addition terminates (a result or a ValueError)", "how": "concrete",
+                                      "case": {"check": "termination", "mode": mode, "t": kw}})
+    res["nontrivial_paths"] = res["paths"]
+    res["scenarios"]["termination supplement"] = {"cases": len(IMPOSSIBLE)}
+    res["notes"].append("concrete runs in fresh processes under a %d s limit; not a solver verdict" % TERMINATION_LIMIT_S)
+    return res
+
+
 def replay(case, M_):
+    if case.get("check") == "termination":
+        o = _impossible(case["mode"], case["t"])
+        bad = o["outcome"] not in ("returned", "refused", "refused by the constructor")
+        return bad, "[%s] 2020-03-10T06:00:00Z + truncated%s: %s" % (case["mode"], case["t"], (
+            "did not terminate within %d s" % TERMINATION_LIMIT_S) if o["outcome"] == "hang" else o)
     data = M_.data
     mode = case["mode"]
     data.CALENDAR.set_mode(mode)
@@ -225,11 +298,24 @@ def replay(case, M_):
         tz = tuple(case["tz"]) if case["tz"] else None
         t = trunc(data, props, tz)
         what = "%s %s" % (C.describe_point(p), props)
+        import signal
+
+        class _Hang(BaseException):
+            pass
+
+        def _alarm(*a):
+            raise _Hang()
+        signal.signal(signal.SIGALRM, _alarm)
+        signal.alarm(TERMINATION_LIMIT_S)
         try:
             r = (p + t) if case["order"] == "p+t" else (t + p)
             again = r + t
+        except _Hang:
+            return True, "%s: the addition did not terminate within %d s" % (what, TERMINATION_LIMIT_S)
         except Exception as exc:
             return True, "%s raised %s: %s" % (what, type(exc).__name__, exc)
+        finally:
+            signal.alarm(0)
         desc = "%s + truncated%s (zone %s) = %s" % (C.describe_point(p), props, tz, C.describe_point(r))
         if r._truncated or not C.py_valid_point(mode, r):
             return True, desc + " is not a valid full date-time"
@@ -247,6 +333,8 @@ def replay(case, M_):
             day, tod = divmod(loc, 86400)
             h, mi, s = tod // 3600, tod % 3600 // 60, tod % 60
             H, MI, S = props.get("hour_of_day"), props.get("minute_of_hour"), props.get("second_of_minute")
+            if H == 24:
+                H = 0
             if H is None and MI is None and S is None:
                 ptod = (ip + off) % 86400
                 if tod != ptod:
@@ -294,7 +382,9 @@ def replay(case, M_):
 
 def jobs(tier):
     th = tier == "thorough"
-    J = []
+    J = [("job_termination", {})]
+    for tz in (None, (5, 30)):
+        J.append(("job_time", dict(mode="gregorian", props={"hour_of_day": 24}, tz=tz, ranges={"se": (58, 59), "mi": (58, 59), "DOY": (365, 366)})))
     SE = [{"se": (0, 1)}, {"se": (58, 59)}] if not th else [{"se": (0, 4)}, {"se": (28, 32)}, {"se": (55, 59)}]
     for mode in (C.MODES4 if th else ["gregorian"]):
         last = {"gregorian": 366, "360day": 360, "365day": 365, "366day": 366}[mode]
@@ -325,7 +415,7 @@ def jobs(tier):
         for N in ((1, 60, min(365, last)) if not th else ((1, 60, min(365, last)) + ((366,) if last == 366 else ()))):
             J.append(("job_day", dict(mode=mode, props={"day_of_year": N}, rep="ord", lookahead=9 if N == 366 else 2,
                                       ranges=dict(T0, h=(0, 0), DOY=(1, 3) if N == 1 else ((58, 62) if N == 60 else (last - 3, last))))))
-        for W, wd in (((1, 1), (20, 5)) if not th else ((1, 1), (20, 5), (52, 7), (53, 1))):
+        for W, wd in (((1, 1), (20, 5)) if not th else ((1, 1), (20, 5), (52, 7)) + (((53, 1),) if mode != "360day" else ())):
             for res in ((104, 399) if not th else (0, 104, 203, 399)):
                 J.append(("job_day", dict(mode=mode, props={"week_of_year": W, "day_of_week": wd}, rep="week", res=res,
                                           lookahead=8 if W == 53 else 2,
@@ -352,6 +442,6 @@ INFO = {
                 "t with minute-offset zones other than +05:30 / -03:30"],
     "assumptions": ["get_days_in_year_range runs as its closed form (C03)"],
 }
-REQUIRED_SCENARIOS = {"all": ["t zone known", "t zone unknown", "order p+t", "order t+p", "p already matches",
+REQUIRED_SCENARIOS = {"all": ["termination supplement", "t zone known", "t zone unknown", "order p+t", "order t+p", "p already matches",
                               "day designator day_of_week", "day designator day_of_month", "day designator day_of_year",
                               "day designator day_of_week+week_of_year"]}
